@@ -223,8 +223,9 @@ Definition pindex (bs : list N) : pres index :=
   palt (pmap IIndex (pi32 bs)) (fun _ =>
   palt (pdo (r1, _) <- ptag_no_case LAST bs;
         pdo (r2, _) <- pchar 45 (multispace0 r1);
-        pdo (r3, v) <- pi32 (multispace0 r2);
-        POk r3 (ILast (saturating_neg v))) (fun _ =>
+        pdo (r3, v) <- pi64 (multispace0 r2);
+        (* map_res: checked_neg, then i32::try_from (after the fix; was i32 + saturating_neg) *)
+        if ((-2147483648 <=? - v) && (- v <=? 2147483647))%Z then POk r3 (ILast (- v)%Z) else PErr) (fun _ =>
   palt (pdo (r1, _) <- ptag_no_case LAST bs;
         pdo (r2, _) <- pchar 43 (multispace0 r1);
         pdo (r3, v) <- pi32 (multispace0 r2);
